@@ -49,6 +49,7 @@ type Val struct {
 	Tup []*Val
 	Clo *Closure
 	Lit *string // known string literal
+	Boxed *Val  // interface value made from this (pointer) value
 	Sort string // SMT sort for spec-only values (Typ == nil)
 	// for slices built from a fixed-size array literal
 	KnownLen int // -1 unknown
@@ -126,6 +127,7 @@ type Eng struct {
 	freshScope map[*ssa.BasicBlock]bool
 	storeDefs map[string]storeDef // heap version name -> (previous version, index, value)
 	allocRefs map[string]bool
+	allocType map[string]types.Type // pointee type of an allocation reference (when known)
 	published map[string]bool // allocation refs that were stored into the heap (may be visible to other goroutines)
 	wantModels bool
 	mathTerms [][3]string
@@ -145,7 +147,7 @@ func NewEng(ld *Loaded, spec *SpecFile) *Eng {
 	e := &Eng{ld: ld, spec: spec, sc: NewScript(),
 		regionSort: map[string]string{}, subIdx: map[string]int{}, typeIDs: map[string]int{},
 		strLits: map[string]string{}, oblNames: map[string]int{}, notes: map[string]bool{},
-		maxInline: 4, modCache: map[*ssa.Function]map[string]bool{}, storeDefs: map[string]storeDef{}, allocRefs: map[string]bool{}, published: map[string]bool{}, regionElemType: map[string]types.Type{}, regionKeySort: map[string]string{}}
+		maxInline: 4, modCache: map[*ssa.Function]map[string]bool{}, storeDefs: map[string]storeDef{}, allocRefs: map[string]bool{}, allocType: map[string]types.Type{}, published: map[string]bool{}, regionElemType: map[string]types.Type{}, regionKeySort: map[string]string{}}
 	e.sc.prelude.WriteString(slicePrelude)
 	if spec != nil {
 		e.declDatatypes()
